@@ -51,8 +51,11 @@ Definition ax_refine (a : axis) : axis := mk_axis (ax_p a) (refine_mults (ax_mul
 Definition covers (ms : list (nat * nat)) (j k : nat) : bool :=
   let r := nth j ms (0, 0) in (fst r <=? k) && (k <? snd r).
 
+(* (the functions are enumerated together with their meshsupp rows: one pass per cell) *)
+Definition covers_r (r : nat * nat) (k : nat) : bool := (fst r <=? k) && (k <? snd r).
+
 Definition supported_functions (numspans numdofs : nat) (ms : list (nat * nat)) : list (nat * nat) :=
-  map (fun k => let js := filter (fun j => covers ms j k) (seq 0 (length ms)) in
+  map (fun k => let js := map fst (filter (fun jr => covers_r (snd jr) k) (combine (seq 0 (length ms)) ms)) in
                 (fold_right Nat.min numdofs js, S (fold_right Nat.max 0 js)))
       (seq 0 numspans).
 
